@@ -155,6 +155,18 @@ def install(E):
         return (None, mkerr('illegal base64 data'))
     I['(*encoding/base64.Encoding).DecodeString'] = b64decode
 
+    # TrimSpace: concrete text, or literal white space concatenated around an encoder output (which has none of its own)
+    def trim_space(e, a, isbytes):
+        s = e.tobytes(a[0]) if isbytes else a[0]
+        if s.c is not None:
+            r = StrV(c=s.c.strip(' \t\r\n\v\f\x85\xa0'))
+        else:
+            r = e.peel_ws(e, s) if getattr(e, 'peel_ws', None) else s
+            if r.c is None and e.json_tree_of(e, r) is None: raise Unsupported('TrimSpace of a symbolic string that is not an encoder output')
+        return BytesV(r) if isbytes else r
+    I['bytes.TrimSpace'] = lambda e, a: trim_space(e, a, True)
+    I['strings.TrimSpace'] = lambda e, a: trim_space(e, a, False)
+
     # ------------------------------------------------------------ strconv / strings
     def itoa_(e, a):
         c = e.conc(a[0])
